@@ -107,3 +107,8 @@ Proof. repeat split; reflexivity. Qed.
 From SymfcG Require Import ShapesApi SkelApi.
 Theorem c11_facade_in_force : ShapesApi_as_recorded = true /\ SkelApi_as_recorded = true.
 Proof. repeat split; reflexivity. Qed.
+
+(** Operations supplied explicitly or found by spglib: the symmetry search and the representation classes are the recorded source. *)
+From SymfcG Require Import ShapesSpg ShapesReps SkelSpg.
+Theorem c11_code_path_in_force : ShapesSpg_as_recorded = true /\ ShapesReps_as_recorded = true /\ SkelSpg_as_recorded = true.
+Proof. repeat split; reflexivity. Qed.
